@@ -186,7 +186,8 @@ Proof.
     apply set_const_ok. exact (i_dead p I).
   - (* step_die *)
     unfold step_die. cbn [fst]. constructor; cbn [n_uid uidarr slotarr parent alive ti_dead others auids]; try apply I.
-    apply set_const_ok. exact (i_alive p I).
+    + apply set_const_ok. exact (i_alive p I).
+    + apply set_const_ok. exact (i_dead p I).
   - (* remove_dead *)
     unfold remove_dead. constructor; cbn [n_uid uidarr slotarr parent alive ti_dead others auids]; try apply I.
     + apply NoDup_filter. exact (i_nodup p I).
@@ -322,3 +323,39 @@ Fixpoint ops_ok (p : ppl) (ops : list pop) : Prop :=
   match ops with [] => True | o :: t => op_ok p o /\ ops_ok (pstep p o) t end.
 Theorem inv_run ops : forall p, Inv p -> ops_ok p ops -> Inv (prun p ops).
 Proof. induction ops as [|o t IH]; intros p I H; cbn; [exact I|]. destruct H as [H1 H2]. apply IH; [apply inv_step; assumption|exact H2]. Qed.
+
+(* ---- the recorded flow of deaths is exactly the deaths carried out in the step (step_die stamps ti_dead with the step at which it kills) *)
+Theorem recorded_deaths_are_executed_deaths p : Inv p -> Qeq_bool (inject_Z (ti p)) (nanv (ti_dead p)) = false ->
+  recorded_new_deaths (fst (step_die p)) = length (snd (step_die p)).
+Proof.
+  intros I Hnan. unfold recorded_new_deaths, step_die. cbn [fst snd auids ti_dead raw upd_raw ti].
+  f_equal. apply filter_ext_in. intros u Hu. rewrite get_set_const.
+  destruct (i_dead p I) as (_ & Td & _). unfold len_tot in Td. pose proof (i_range p I u Hu) as Hr.
+  destruct (Nat.ltb_spec u (length (raw (ti_dead p)))) as [_|Hge]; [|lia]. rewrite andb_true_r.
+  destruct (existsb (Nat.eqb u) (filter (due p) (auids p))) eqn:E.
+  - apply existsb_exists in E as [x [Hx Ex]]. apply Nat.eqb_eq in Ex; subst x. apply filter_In in Hx as [_ Hd]. rewrite Hd.
+    apply Qeq_bool_iff. reflexivity.
+  - assert (Hdf : due p u = false).
+    { destruct (due p u) eqn:D; [|reflexivity]. exfalso.
+      assert (X : existsb (Nat.eqb u) (filter (due p) (auids p)) = true) by (apply existsb_exists; exists u; split; [apply filter_In; split; assumption|apply Nat.eqb_refl]). congruence. }
+    rewrite Hdf. unfold due in Hdf. destruct (get_raw (raw (ti_dead p)) u) as [q|]; [|reflexivity].
+    destruct (Qeq_bool q (inject_Z (ti p))) eqn:Eq; [|reflexivity]. exfalso.
+    apply Qeq_bool_iff in Eq.
+    assert (N : Qeq_bool q (nanv (ti_dead p)) = false).
+    { destruct (Qeq_bool q (nanv (ti_dead p))) eqn:En; [|reflexivity]. apply Qeq_bool_iff in En.
+      assert (Qeq_bool (inject_Z (ti p)) (nanv (ti_dead p)) = true) by (apply Qeq_bool_iff; rewrite <- Eq; exact En). congruence. }
+    rewrite N in Hdf. cbn [negb andb] in Hdf. unfold death_due_gen, Qleb in Hdf.
+    assert (Qle_bool q (inject_Z (ti p)) = true) by (apply Qle_bool_iff; rewrite Eq; apply Qle_refl). congruence.
+Qed.
+
+Lemma filter_all_true {A} (f : A -> bool) (l : list A) : (forall x, In x l -> f x = true) -> filter f l = l.
+Proof. induction l as [|a l IH]; intros H; cbn; [reflexivity|]. rewrite (H a (or_introl eq_refl)). f_equal. apply IH. intros x Hx. apply H. right. exact Hx. Qed.
+
+(* hence the balance of the property: alive before = alive after + recorded deaths, when the step starts with living active agents only *)
+Theorem alive_balance_with_recorded_deaths p : Inv p -> Qeq_bool (inject_Z (ti p)) (nanv (ti_dead p)) = false ->
+  (forall u, In u (auids p) -> is_alive p u = true) ->
+  n_alive p = n_alive (fst (step_die p)) + recorded_new_deaths (fst (step_die p)).
+Proof.
+  intros I Hnan Hal. rewrite (recorded_deaths_are_executed_deaths p I Hnan). rewrite (step_die_balance p I) at 1. f_equal.
+  rewrite filter_all_true; [reflexivity|]. intros u Hu. unfold step_die in Hu. cbn [snd] in Hu. apply filter_In in Hu as [Hu _]. exact (Hal u Hu).
+Qed.
